@@ -20,7 +20,7 @@ def _funcs():
             m.VbsReader.__next__, m.Block1014.write, m.Unblock1014.read, i.dumps, i.loads]
 
 
-def roundtrip(nrec, enc, blocked, cfgs=None, shapes=None):
+def roundtrip(nrec, enc, blocked, cfgs=None, shapes=None, maxvar1=-1):
     def h():
         core.FUEL.set(30)
         m = M().mciipm
@@ -31,7 +31,7 @@ def roundtrip(nrec, enc, blocked, cfgs=None, shapes=None):
                 bits = choose('shape%d' % i, shapes or SHAPES)
             else:
                 bits = sorted(int(k) for k in cfgs)
-            msg, elems = build_message(bits, cfgs=cfgs, tag='_r%d' % i, maxvar=400 if nrec > 1 else None)
+            msg, elems = build_message(bits, cfgs=cfgs, tag='_r%d' % i, maxvar=(400 if nrec > 1 else None) if maxvar1 == -1 else 992)
             recs.append((msg, elems))
 
         def rp():
@@ -184,9 +184,9 @@ def obligations(tier):
     obs.append(Ob('rt2/custom-config/latin_1/vbs', roundtrip(2, 'latin_1', False, cfgs=GENERIC['g-typed']), 300, 'caller-supplied configuration g-typed', _funcs))
     if not q:
         obs.append(Ob('rt3/cp500/1014', roundtrip(3, 'cp500', True, shapes=SHAPES[:3]), 1800, 'three messages', _funcs))
-    LONG = [[54, 72, 111, 127], [2, 72, 'PDS0023', 'PDS0052']]
+    LONG = [[54, 72, 111, 127], [2, 72, 'PDS0023', 'PDS0052'], [3, 'PDS0001', 'PDS0002', 'PDS0158']]
     for enc, blocked in (('latin_1', True), ('cp500', True), ('cp037', False)):
-        obs.append(Ob('rt1-long/%s/%s' % (enc, '1014' if blocked else 'vbs'), roundtrip(1, enc, blocked, shapes=LONG), 900,
+        obs.append(Ob('rt1-long/%s/%s' % (enc, '1014' if blocked else 'vbs'), roundtrip(1, enc, blocked, shapes=LONG, maxvar1=None), 900,
                       'one long message (shapes %s, every length up to 999 / 992 each: records up to ~4000 bytes over several blocks)' % LONG, _funcs))
     for blocked in (False, True):
         obs.append(Ob('isolation/configs/%s' % ('1014' if blocked else 'vbs'), configs_isolated(blocked), 300,
